@@ -28,7 +28,10 @@ class RequestResponseRequester(StreamHandler, Requester):
 
     def frame_received(self, frame: Frame):
         if self._future.done():
-            return  # already resolved or cancelled by the application: a late response must not raise
+            # already resolved or cancelled by the application: a late response must not raise
+            if isinstance(frame, (PayloadFrame, ErrorFrame)):
+                self._finish_stream()
+            return
 
         if isinstance(frame, PayloadFrame):
             self._future.set_result(payload_from_frame(frame))
